@@ -182,10 +182,12 @@ func init() {
 		return Outcome{Aux: fmt.Sprint(a.X.Sign(), a.X.IsZero(), a.X.NumDigits())}
 	})
 	// Size reports the memory footprint, which depends on the capacity of the
-	// heap slice and therefore on allocation history: it is exercised (shared
-	// reads) but only compared where both executions have the same history (C18).
+	// heap slice and therefore on allocation history (e.g. whether a scratch
+	// value came out of a pool).
 	reg("Size", KRead1, false, false, false, func(a *Args) Outcome {
-		return Outcome{Aux: fmt.Sprint(a.X.Size())}
+		// exercised as a shared read; the number itself is not part of any
+		// comparison (it reflects slice capacity, i.e. allocation history)
+		return Outcome{Aux: fmt.Sprint(a.X.Size() > 0)}
 	})
 	reg("String", KRead1, false, false, false, func(a *Args) Outcome {
 		return Outcome{Aux: a.X.String()}
